@@ -692,6 +692,331 @@ async fn outstation_responses(a: &ShardArgs, idx: u64) {
     }
 }
 
+/// a device attribute value and its encoding [type code, length, value] written by hand from the standard
+#[derive(Clone, Debug, PartialEq)]
+enum AV {
+    Str(String),
+    UInt(u32),
+    Int(i32),
+    F32(f32),
+    F64(f64),
+    Octets(Vec<u8>),
+    Bits(Vec<u8>),
+    Time(u64),
+}
+
+impl AV {
+    fn random(r: &mut Rng) -> AV {
+        match r.below(8) {
+            0 => AV::Str((0..*r.pick(&[0usize, 1, 7, 60, 255])).map(|_| (b'a' + r.below(26) as u8) as char).collect()),
+            1 => AV::UInt(*r.pick(&[0u32, 1, 255, 256, 65535, 65536, u32::MAX, 0x0100_0000])),
+            2 => AV::Int(*r.pick(&[0i32, -1, 127, 128, -128, -129, 32767, 32768, -32768, -32769, i32::MAX, i32::MIN])),
+            3 => AV::F32(*r.pick(&[0.0f32, -1.5, f32::MAX, f32::MIN_POSITIVE, 3.25])),
+            4 => AV::F64(*r.pick(&[0.0f64, -1.5, f64::MAX, 1e-300, 2.5])),
+            5 => AV::Octets({
+                let n = *r.pick(&[0usize, 1, 16, 100, 250, 255]);
+                r.bytes(n)
+            }),
+            6 => AV::Bits({
+                let n = *r.pick(&[0usize, 1, 9]);
+                r.bytes(n)
+            }),
+            _ => AV::Time(*r.pick(&[0u64, 1, 0x0000_FFFF_FFFF_FFFF, 1_600_000_000_000])),
+        }
+    }
+    fn owned(&self) -> crate::app::attr::OwnedAttrValue {
+        use crate::app::attr::{FloatType, OwnedAttrValue as O};
+        match self {
+            AV::Str(s) => O::VisibleString(s.clone()),
+            AV::UInt(x) => O::UnsignedInt(*x),
+            AV::Int(x) => O::SignedInt(*x),
+            AV::F32(x) => O::FloatingPoint(FloatType::F32(*x)),
+            AV::F64(x) => O::FloatingPoint(FloatType::F64(*x)),
+            AV::Octets(b) => O::OctetString(b.clone()),
+            AV::Bits(b) => O::BitString(b.clone()),
+            AV::Time(t) => O::Dnp3Time(crate::app::Timestamp::new(*t)),
+        }
+    }
+    fn code(&self) -> u8 {
+        match self {
+            AV::Str(_) => 1,
+            AV::UInt(_) => 2,
+            AV::Int(_) => 3,
+            AV::F32(_) | AV::F64(_) => 4,
+            AV::Octets(_) => 5,
+            AV::Bits(_) => 6,
+            AV::Time(_) => 7,
+        }
+    }
+    /// does an encoded attribute object [code, len, bytes] carry this value? (integers may use 1, 2 or 4 octets)
+    fn carried_by(&self, obj: &[u8]) -> bool {
+        if obj.len() < 2 || obj[0] != self.code() || obj.len() != 2 + obj[1] as usize {
+            return false;
+        }
+        let v = &obj[2..];
+        match self {
+            AV::Str(s) => v == s.as_bytes(),
+            AV::Octets(b) | AV::Bits(b) => v == b.as_slice(),
+            AV::UInt(x) => matches!(v.len(), 1 | 2 | 4) && v.iter().rev().fold(0u64, |a, b| a << 8 | *b as u64) == *x as u64,
+            AV::Int(x) => match v.len() {
+                1 => v[0] as i8 as i32 == *x,
+                2 => i16::from_le_bytes([v[0], v[1]]) as i32 == *x,
+                4 => i32::from_le_bytes([v[0], v[1], v[2], v[3]]) == *x,
+                _ => false,
+            },
+            AV::F32(x) => v.len() == 4 && f32::from_le_bytes([v[0], v[1], v[2], v[3]]).to_bits() == x.to_bits(),
+            AV::F64(x) => v.len() == 8 && f64::from_le_bytes([v[0], v[1], v[2], v[3], v[4], v[5], v[6], v[7]]).to_bits() == x.to_bits(),
+            AV::Time(t) => v.len() == 6 && ra::rd48(v) == *t,
+        }
+    }
+    /// the text the library's Debug rendering of the decoded value must contain
+    fn debug_needle(&self) -> String {
+        match self {
+            AV::Str(s) => format!("{s:?}"),
+            AV::UInt(x) => format!("({x})"),
+            AV::Int(x) => format!("({x})"),
+            AV::F32(x) => format!("{x:?}"),
+            AV::F64(x) => format!("{x:?}"),
+            AV::Octets(b) | AV::Bits(b) => format!("{b:?}"),
+            AV::Time(t) => format!("{t}"),
+        }
+    }
+    fn encode(&self) -> Vec<u8> {
+        let v: Vec<u8> = match self {
+            AV::Str(s) => s.as_bytes().to_vec(),
+            AV::Octets(b) | AV::Bits(b) => b.clone(),
+            AV::UInt(x) => x.to_le_bytes().to_vec(),
+            AV::Int(x) => x.to_le_bytes().to_vec(),
+            AV::F32(x) => x.to_le_bytes().to_vec(),
+            AV::F64(x) => x.to_le_bytes().to_vec(),
+            AV::Time(t) => ra::time48(*t),
+        };
+        let mut o = vec![self.code(), v.len() as u8];
+        o.extend(v);
+        o
+    }
+}
+
+/// Part A3: device attributes - defined in the outstation, read (one, all of a set) and written by a scripted master
+async fn attributes(a: &ShardArgs, idx: u64) {
+    use crate::app::attr::{AttrProp, AttrSet, OwnedAttribute};
+    let mut r = a.rng(&format!("c09/attr/{idx}"));
+    let mut oc = OutCfg::default();
+    oc.sol_tx = *r.pick(&[249usize, 2048]);
+    // (set, variation) -> (value, writable)
+    let mut defs: std::collections::BTreeMap<(u8, u8), (AV, bool)> = Default::default();
+    for _ in 0..r.range(1, 10) {
+        let set = *r.pick(&[1u8, 2, 200, 255]);
+        let var = *r.pick(&[1u8, 2, 100, 200, 253]);
+        defs.entry((set, var)).or_insert((AV::random(&mut r), r.bool()));
+    }
+    // two well-known members of the default set
+    defs.insert((0, 252), (AV::Str("ACME".into()), false));
+    defs.insert((0, 246), (AV::Str("id-1".into()), true));
+    let d2 = defs.clone();
+    let mut def_errors: Vec<String> = vec![];
+    let mut sim = OutSim::start_with(oc.clone(), |db| {
+        for ((set, var), (v, w)) in &d2 {
+            let prop = if *w { AttrProp::writable() } else { AttrProp::default() };
+            if let Err(e) = db.define_attr(prop, OwnedAttribute::new(AttrSet::new(*set), *var, v.owned())) {
+                def_errors.push(format!("({set},{var}) {v:?}: {e:?}"));
+            }
+        }
+    })
+    .await;
+    let mut ctx: Vec<String> = vec![format!("defined {defs:?}")];
+    if !def_errors.is_empty() {
+        report(a, "A3", idx, &("attribute_definition_refused".into(), "define".into(), format!("define_attr refused: {def_errors:?}")), &[], &ctx);
+        return;
+    }
+    let mut seq = r.below(16) as u8;
+    // send a request and follow the response series by confirming, at most 12 fragments
+    async fn exchange(sim: &mut OutSim, rq: &[u8]) -> Vec<Vec<u8>> {
+        let mut all: Vec<Vec<u8>> = vec![];
+        let mut rx = sim.request(rq).await;
+        for _ in 0..12 {
+            let frags: Vec<Vec<u8>> = rx.iter().filter_map(|x| x.fragment().map(|f| f.to_vec())).collect();
+            if frags.is_empty() {
+                break;
+            }
+            let last = frags.last().unwrap().clone();
+            all.extend(frags);
+            if last[0] & ra::CON == 0 || last[0] & ra::FIN != 0 {
+                if last[0] & ra::CON != 0 {
+                    let _ = sim.request(&ra::B::confirm(last[0] & 15, false).done()).await;
+                }
+                break;
+            }
+            rx = sim.request(&ra::B::confirm(last[0] & 15, false).done()).await;
+        }
+        all
+    }
+    // decode the attribute objects of a response: (set, variation, object bytes)
+    let decode = |f: &[u8]| -> Vec<(u8, u8, Vec<u8>)> {
+        let w = ra::walk(ra::F_RESPONSE, &f[4..], true);
+        w.headers.iter().filter(|h| h.group == 0).flat_map(|h| h.objs.iter().map(move |o| (h.start as u8, h.var, o.bytes.clone()))).collect()
+    };
+    // an attribute object (5 header octets + type + length + value) that does not fit an empty fragment cannot be reported at all
+    let tx = oc.sol_tx;
+    let fits = move |v: &AV| 5 + v.encode().len() <= tx - 4;
+    for _ in 0..r.range(3, 9) {
+        seq = (seq + 1) & 15;
+        let keys: Vec<(u8, u8)> = defs.keys().cloned().collect();
+        let (set, var) = *r.pick(&keys);
+        match r.below(5) {
+            4 => {
+                // list of the attribute variations of a set (variation 255): pairs (variation, properties), bit 0 = writable
+                let rq = ra::B::request(ra::F_READ, seq).range8(0, 255, set, set, &[]).done();
+                ctx.push(format!("READ g0v255 set {set}"));
+                let frags = exchange(&mut sim, &rq).await;
+                out::eval(1);
+                for f in &frags {
+                    if let Err(v) = compare(f, false, true) {
+                        report(a, "A3", idx, &v, f, &ctx);
+                    }
+                }
+                let got: Vec<(u8, u8, Vec<u8>)> = frags.iter().flat_map(|f| decode(f)).collect();
+                let mut want: Vec<u8> = vec![];
+                for (k, v) in defs.iter().filter(|(k, _)| k.0 == set) {
+                    want.push(k.1);
+                    want.push(v.1 as u8);
+                }
+                let ok = got.len() == 1 && got[0].0 == set && got[0].1 == 255 && got[0].2.len() >= 2 && got[0].2[0] == 254 && got[0].2[1] as usize == want.len() && got[0].2[2..] == want[..];
+                if !ok {
+                    report(a, "A3", idx, &("attribute_variation_list".into(), "v255".into(), format!("set {set} defines (variation, writable) {want:?}; the list read returned {got:?}")), frags.first().map(|f| f.as_slice()).unwrap_or(&[]), &ctx);
+                } else {
+                    out::count("A3_variation_list_ok", 1);
+                }
+            }
+            0 | 1 => {
+                // read one attribute
+                let rq = ra::B::request(ra::F_READ, seq).range8(0, var, set, set, &[]).done();
+                ctx.push(format!("READ g0v{var} set {set}"));
+                let frags = exchange(&mut sim, &rq).await;
+                out::eval(1);
+                let Some(f) = frags.first() else {
+                    report(a, "A3", idx, &("attribute_no_reply".into(), "read".into(), "no response to an attribute read".into()), &rq, &ctx);
+                    continue;
+                };
+                if let Err(v) = compare(f, false, true) {
+                    report(a, "A3", idx, &v, f, &ctx);
+                }
+                let got: Vec<(u8, u8, Vec<u8>)> = frags.iter().flat_map(|f| decode(f)).collect();
+                if frags.len() >= 12 {
+                    report(a, "A3", idx, &("attribute_series_endless".into(), "one".into(), format!("the response series to the read of attribute ({set},{var}) did not end within 12 fragments")), f, &ctx);
+                }
+                let want = &defs[&(set, var)].0;
+                if !fits(want) {
+                    if !got.is_empty() {
+                        report(a, "A3", idx, &("attribute_encoding".into(), "oversize".into(), format!("attribute ({set},{var}) cannot fit a fragment of {tx} octets but {got:?} was reported")), f, &ctx);
+                    } else {
+                        out::count("A3_oversize_attribute_skipped_ok", 1);
+                    }
+                    continue;
+                }
+                if got.len() != 1 || got[0].0 != set || got[0].1 != var || !want.carried_by(&got[0].2) {
+                    report(a, "A3", idx, &("attribute_encoding".into(), format!("code{}", want.code()), format!("attribute ({set},{var}) = {want:?} is reported as {got:?}")), f, &ctx);
+                } else {
+                    out::count("A3_attribute_read_ok", 1);
+                    out::count(&format!("A3_read_ok_code{}", want.code()), 1);
+                }
+                // and what the master's handler is given
+                let mut rec = Recorder::new();
+                if let Ok(p) = ParsedFragment::parse(ParseOptions { parse_zero_length_strings: false }, f) {
+                    if let Ok(objs) = p.objects {
+                        crate::master::extract::extract_measurements_inner(objs, &mut rec);
+                    }
+                }
+                let attrs: Vec<String> = rec.take().into_iter().filter_map(|i| if let Item::Attr(s) = i { Some(s) } else { None }).collect();
+                if attrs.len() != 1 || !attrs[0].contains(&want.debug_needle()) {
+                    report(a, "A3", idx, &("attribute_delivery".into(), format!("code{}", want.code()), format!("attribute ({set},{var}) = {want:?} reaches the handler as {attrs:?}")), f, &ctx);
+                } else {
+                    out::count("A3_attribute_delivered_ok", 1);
+                }
+            }
+            2 => {
+                // all attributes of a set (variation 254)
+                let rq = ra::B::request(ra::F_READ, seq).range8(0, 254, set, set, &[]).done();
+                ctx.push(format!("READ g0v254 set {set}"));
+                let frags = exchange(&mut sim, &rq).await;
+                if frags.len() >= 12 {
+                    report(a, "A3", idx, &("attribute_series_endless".into(), "v254".into(), format!("the response series to a read of all attributes of set {set} did not end within 12 fragments")), frags.last().map(|f| f.as_slice()).unwrap_or(&[]), &ctx);
+                }
+                out::eval(1);
+                let mut got: Vec<(u8, u8, Vec<u8>)> = vec![];
+                for f in &frags {
+                    if let Err(v) = compare(f, false, true) {
+                        report(a, "A3", idx, &v, f, &ctx);
+                    }
+                    got.extend(decode(f));
+                }
+                let want: Vec<(u8, &AV)> = defs.iter().filter(|(k, v)| k.0 == set && fits(&v.0)).map(|(k, v)| (k.1, &v.0)).collect();
+                let complete = frags.last().map(|f| f[0] & ra::FIN != 0).unwrap_or(false);
+                let ok = got.iter().all(|g| g.0 == set && want.iter().any(|w| w.0 == g.1 && w.1.carried_by(&g.2))) && (!complete || got.len() == want.len());
+                if !ok {
+                    report(a, "A3", idx, &("attribute_set_read".into(), "v254".into(), format!("set {set} holds {want:?}; the read of all attributes returned {got:?}")), frags.first().map(|f| f.as_slice()).unwrap_or(&[]), &ctx);
+                } else {
+                    out::count("A3_attribute_set_read_ok", 1);
+                }
+            }
+            _ => {
+                // write
+                let (old, writable) = defs[&(set, var)].clone();
+                let same_type = r.chance(2, 3);
+                let mut newv = AV::random(&mut r);
+                for _ in 0..20 {
+                    if (newv.code() == old.code()) == same_type {
+                        break;
+                    }
+                    newv = AV::random(&mut r);
+                }
+                let app_ok = r.chance(3, 4);
+                sim.mock.script(|s| s.attr_ok = app_ok);
+                let _ = sim.mock.take();
+                let rq = ra::B::request(ra::F_WRITE, seq).range8(0, var, set, set, &newv.encode()).done();
+                ctx.push(format!("WRITE g0v{var} set {set} = {newv:?} (writable={writable}, application accepts={app_ok})"));
+                let rx = sim.request(&rq).await;
+                let frags: Vec<Vec<u8>> = rx.iter().filter_map(|x| x.fragment().map(|f| f.to_vec())).collect();
+                out::eval(1);
+                let Some(f) = frags.first() else {
+                    report(a, "A3", idx, &("attribute_no_reply".into(), "write".into(), "no response to an attribute write".into()), &rq, &ctx);
+                    continue;
+                };
+                let accepted = f.len() >= 4 && f[3] & ra::IIN2_ERRORS == 0;
+                let asked: usize = sim.mock.take().iter().filter(|(_, e)| matches!(e, Ev::WriteDeviceAttr(_))).count();
+                let must_accept = writable && newv.code() == old.code() && app_ok;
+                if accepted != must_accept {
+                    report(a, "A3", idx, &("attribute_write_verdict".into(), format!("accepted{}", accepted as u8), format!("write of {newv:?} over {old:?} (writable={writable}, application accepts={app_ok}) answered with IIN2 {:02x}", f.get(3).copied().unwrap_or(0))), f, &ctx);
+                } else {
+                    out::count(if accepted { "A3_attribute_write_accepted_ok" } else { "A3_attribute_write_rejected_ok" }, 1);
+                }
+                if (!writable || newv.code() != old.code()) && asked > 0 {
+                    report(a, "A3", idx, &("attribute_write_reached_application".into(), "write".into(), format!("the application was asked to persist a write that cannot be made (writable={writable}, {old:?} <- {newv:?})")), f, &ctx);
+                }
+                if accepted {
+                    defs.insert((set, var), (newv, writable));
+                }
+                // the value now read is the new one exactly when the write was accepted
+                seq = (seq + 1) & 15;
+                let rx = sim.request(&ra::B::request(ra::F_READ, seq).range8(0, var, set, set, &[]).done()).await;
+                if let Some(f2) = rx.iter().filter_map(|x| x.fragment()).next() {
+                    let got = decode(f2);
+                    let want = &defs[&(set, var)].0;
+                    if !fits(want) {
+                        continue;
+                    }
+                    if got.len() != 1 || !want.carried_by(&got[0].2) {
+                        report(a, "A3", idx, &("attribute_after_write".into(), format!("accepted{}", accepted as u8), format!("after the write (accepted={accepted}) attribute ({set},{var}) should read {want:?}, response carries {got:?}")), f2, &ctx);
+                    } else {
+                        out::count("A3_attribute_after_write_ok", 1);
+                    }
+                }
+            }
+        }
+    }
+    out::distinct(&format!("A3/defs{}", defs.len()));
+}
+
 pub fn run(a: &ShardArgs) -> Result<(), String> {
     let only: Option<u64> = a.replay.as_ref().and_then(|p| super::common::replay_scenario(p));
     if only.is_none() {
@@ -701,7 +1026,7 @@ pub fn run(a: &ShardArgs) -> Result<(), String> {
         // interpreter runs: the parser / iterator / extraction code only (no sessions)
         return Ok(());
     }
-    let n = a.n(3000);
+    let n = a.n(4500);
     for idx in 0..n {
         if idx % a.nshards != a.shard {
             continue;
@@ -712,10 +1037,10 @@ pub fn run(a: &ShardArgs) -> Result<(), String> {
             }
         }
         out::progress(&format!("scenario {idx}"));
-        if idx % 2 == 0 {
-            run_scenario(master_requests(a, idx));
-        } else {
-            run_scenario(outstation_responses(a, idx));
+        match idx % 3 {
+            0 => run_scenario(master_requests(a, idx)),
+            1 => run_scenario(outstation_responses(a, idx)),
+            _ => run_scenario(attributes(a, idx)),
         }
         for p in crate::verif::util::take_panics() {
             out::violation(P, "C09.panic", &crate::verif::util::norm_location(&p.location), J::obj(vec![("why", J::s(format!("panic {} at {}", p.message, p.location)))]), J::obj(vec![("check", J::s("c09")), ("seed", J::U(a.seed)), ("shard", J::U(a.shard)), ("nshards", J::U(a.nshards)), ("scenario", J::U(idx))]));
